@@ -153,6 +153,13 @@ def setup(warm: bool):
     locks = sched.install_coop_locks('beartype')
     _install_pool_monitor()
     _snapshot_pools()
+    # garbage collection is made deterministic: everything alive now is frozen, cyclic garbage of a trial is collected
+    # before the next one (in the main thread, untraced) and never during a trial (a collection inside a traced thread
+    # would run beartype's weakref.finalize callbacks at arbitrary points, even inside the scheduler)
+    import gc
+    gc.collect()
+    gc.freeze()
+    gc.disable()
     return locks
 
 
@@ -211,7 +218,9 @@ def _install_pool_monitor():
 
 
 def fresh_trial() -> Vocab:
+    import gc
     from beartype.claw._clawstate import claw_state
+    gc.collect()
     claw_state.reinit()
     _reset_pools()
     POOL_EVENTS.clear()
